@@ -358,7 +358,12 @@ class PDFStandardSecurityHandler:
         self.init()
 
     def init(self) -> None:
-        self.init_params()
+        try:
+            self.init_params()
+        except (KeyError, TypeError) as e:
+            # a required entry is missing or has the wrong type
+            error_msg = f"Invalid encryption dictionary ({e!r}): param={self.param!r}"
+            raise PDFEncryptionError(error_msg)
         if self.r not in self.supported_revisions:
             error_msg = "Unsupported revision: param=%r" % self.param
             raise PDFEncryptionError(error_msg)
